@@ -760,6 +760,33 @@ fn scenario_alter_tree() -> Option<Finding> {
     alter_with(true)
 }
 
+/// C20 (open path): a failed open of a file that carries the magic number but is shorter than the
+/// header, or is cut anywhere else, closes the backend once and never reads past the current length
+fn scenario_short_open() -> Option<Finding> {
+    let be = Rec::default();
+    {
+        let db = Database::builder().create_with_backend(be.clone()).ok()?;
+        do_commit(&db, 1, Mode::OnePhase, false).ok()?;
+    }
+    let img = be.st.lock().unwrap().live.clone();
+    for k in [9usize, 10, 64, 100, 319, 320, 321, 511, 512, 513, 4095, 4096, 4097, 8192, img.len() - 1] {
+        if k >= img.len() {
+            continue;
+        }
+        let be2 = Rec::with_image(img[..k].to_vec());
+        let r = catch_unwind(AssertUnwindSafe(|| Database::builder().create_with_backend(be2.clone()).map(|_| ())));
+        let st = be2.st.lock().unwrap();
+        if st.oob != 0 || st.closes != 1 || st.after_close != 0 {
+            return Some(Finding {
+                what: "opening a truncated file violates the backend contract".into(),
+                detail: format!("file cut to {k} bytes: out-of-bounds accesses {}, close calls {}, calls after close {}, open result: {}", st.oob, st.closes, st.after_close,
+                    match &r { Ok(Ok(())) => "Ok".to_string(), Ok(Err(e)) => format!("Err({e})"), Err(_) => "panic".to_string() }),
+            });
+        }
+    }
+    None
+}
+
 fn alter_with(tree: bool) -> Option<Finding> {
     let be = Rec::default();
     let mut points: Vec<Snapshot> = vec![(BTreeMap::new(), BTreeMap::new())];
@@ -866,6 +893,7 @@ fn main() {
         "close" => scenario_close(),
         "alter" => scenario_alter(),
         "alter_tree" => scenario_alter_tree(),
+        "short_open" => scenario_short_open(),
         _ => {
             eprintln!("unknown scenario");
             std::process::exit(2);
